@@ -30,19 +30,10 @@ static vh::Out out;
 static const ld EPSD = 2.220446049250313e-16L;
 static bool THOROUGH = false;
 
-// FINDING (unchanged tree): `delayseq(const arr_cmplx&, int)` is ill-formed — the template of include/dsplib/utils.h returns
-// `zeros(N)` (an arr_real) as base_array<cmplx_t>, which array.h rejects by static_assert.  While this macro is defined the
-// complex calls go through the real instantiation on the re / im parts and the run reports `F C18:delayseq-complex-ill-formed`.
-// Delete the macro once /repo is repaired: the harness then calls delayseq<cmplx_t> directly.
-#define C18_CMPLX_DELAYSEQ_VIA_PARTS
+// (`delayseq(arr_cmplx, int)` was ill-formed before /repo commit f2acd20: the template converted `zeros(N)`, an arr_real,
+// to base_array<cmplx_t>.  The harness instantiates both overloads, so a regression is a build failure of this file.)
 static arr_real dseq(const arr_real& x, int d) { return delayseq(x, d); }
-static arr_cmplx dseq(const arr_cmplx& x, int d) {
-#ifdef C18_CMPLX_DELAYSEQ_VIA_PARTS
-    return complex(delayseq(real(x), d), delayseq(imag(x), d));
-#else
-    return delayseq(x, d);
-#endif
-}
+static arr_cmplx dseq(const arr_cmplx& x, int d) { return delayseq(x, d); }
 
 struct CL {
     ld re, im;
@@ -239,7 +230,8 @@ static void gcc_case(const arr_real& sig, const arr_real& ref, int fs, int d_tru
                             jstr("tau_times_fs", threw ? "\"ERR\"" : vh::jnum((double)samples));
             if (ref.size() <= 160) w += jstr("sig", vh::jarr(sig)) + jstr("ref", vh::jarr(ref));
             w += jstr("len", I(ref.size()), true) + "}";
-            // a NaN result (0/0 in the PHAT weighting Y / abs(Y) at a cross-spectrum bin that is exactly zero) gets its own key
+            // a NaN result gets its own key (before /repo commit 86d0c65 the PHAT weighting Y / abs(Y) was 0/0 at a cross-spectrum bin that is
+            // exactly zero, e.g. the DC bin of a +-1 sequence with zero sum)
             out.fail(!threw && std::isnan(res.tau) ? "C18:gccphat-nan" : "C18:gccphat", w);
         }
         if (!threw) {
@@ -674,10 +666,6 @@ int main(int argc, char** argv) {
     THOROUGH = args.thorough;
     vh::Rng r(args.seed * 0x9e3779b97f4a7c15ULL + 18);
     out.max_samples = 8;
-#ifdef C18_CMPLX_DELAYSEQ_VIA_PARTS
-    out.fail("C18:delayseq-complex-ill-formed", "{\"fn\":\"delayseq\",\"type\":\"arr_cmplx\",\"what\":\"dsplib::delayseq(arr_cmplx, int) does not compile: "
-             "utils.h delayseq<T> converts zeros(N) (arr_real) to base_array<cmplx_t>, rejected by the static_assert of array.h\"}");
-#endif
     run_delayseq(r);
     run_peakloc(r);
     run_delay_estimators(r);
